@@ -484,3 +484,46 @@ Proof.
     apply forallb_false_exists in H2. destruct H2 as [[v l] [H2 H3]]. cbn [fst] in H3.
     exists lam, gam, tm, v, l. repeat split; auto. intro Hin. apply mem_In in Hin. congruence.
 Qed.
+
+(* ====================================================================================== *)
+(* 7. recorded witnesses (diagrams exported from the implementation)                       *)
+(* ====================================================================================== *)
+Local Open Scope Q_scope.
+(* tree n0 - n1, the term A0(n0) A1(n1) twice, method SGE: both copies are merged, the
+   multiplicity is lost (known finding C01-duplicate-terms) *)
+Definition wit_dup_tree : rtree := RNode 0 [RNode 1 []].
+Definition wit_dup_ham : list pterm :=
+  map (pad_term idlab_std [(0, 2); (1, 2)]%nat) [(1, 0%nat, [(0, 12); (1, 22)]%nat); (1, 0%nat, [(0, 12); (1, 22)]%nat)].
+Definition wit_dup_sd : sd :=
+  mkSd [mkHe (0, 0)%nat 0 12 1 0 [(0, 0)%nat]; mkHe (0, 1)%nat 1 22 1 0 [(0, 0)%nat]]
+       [mkVx (0, 0)%nat 1 [(0, 1); (0, 0)]%nat].
+Lemma wit_dup_refuted : ~ peq (sd_denote wit_dup_tree wit_dup_sd) (ham_denote wit_dup_tree wit_dup_ham).
+Proof. apply refute_by_key with (k := (@nil nat, [12; 22]%nat)). vm_compute. discriminate. Qed.
+
+(* one node, terms 1*A0 + 2*A1, method TREE: the second hyperedge copies the coefficient of
+   the first (known finding C01-tree-coefficients) *)
+Definition wit_tree_tree : rtree := RNode 0 [].
+Definition wit_tree_ham : list pterm :=
+  map (pad_term idlab_std [(0, 2)]%nat) [(1, 0%nat, [(0, 12)]%nat); (2, 0%nat, [(0, 22)]%nat)].
+Definition wit_tree_sd : sd :=
+  mkSd [mkHe (0, 0)%nat 0 12 1 0 []; mkHe (0, 1)%nat 0 22 1 0 []] [].
+Lemma wit_tree_refuted : ~ peq (sd_denote wit_tree_tree wit_tree_sd) (ham_denote wit_tree_tree wit_tree_ham).
+Proof. apply refute_by_key with (k := (@nil nat, [22]%nat)). vm_compute. discriminate. Qed.
+
+(* a diagram the SGE pipeline built for five terms (rational and symbolic coefficients, two
+   proportional terms) on a four-node tree with a dimension-1 node *)
+Definition wit_ok_tree : rtree := RNode 0 [RNode 2 [RNode 3 []]; RNode 1 []].
+Definition wit_ok_ham : list pterm :=
+  map (pad_term idlab_std [(0, 2); (1, 2); (2, 1); (3, 2)]%nat)
+    [(2 # 3, 1%nat, [(0, 12); (1, 22)]%nat); (1, 0%nat, [(0, 12); (3, 12)]%nat); (-1 # 1, 2%nat, [(1, 22)]%nat);
+     (1 # 2, 2%nat, [(0, 12); (1, 22)]%nat); (3 # 1, 0%nat, [(3, 12); (1, 22)]%nat)].
+Definition wit_ok_sd : sd :=
+  (mkSd [mkHe (0, 0)%nat 0 12 ((2) # 3) 1 [(0, 0); (0, 4)]%nat; mkHe (0, 1)%nat 0 12 ((1) # 1) 0 [(0, 1); (0, 5)]%nat;
+         mkHe (0, 2)%nat 0 2 ((-1) # 1) 2 [(0, 0); (0, 4)]%nat; mkHe (0, 3)%nat 0 12 ((1) # 2) 2 [(0, 0); (0, 4)]%nat;
+         mkHe (0, 4)%nat 0 2 ((3) # 1) 0 [(0, 1); (0, 4)]%nat; mkHe (0, 5)%nat 2 1 ((1) # 1) 0 [(0, 0); (0, 2)]%nat;
+         mkHe (0, 6)%nat 2 1 ((1) # 1) 0 [(0, 1); (0, 3)]%nat; mkHe (0, 7)%nat 3 2 ((1) # 1) 0 [(0, 2)]%nat;
+         mkHe (0, 8)%nat 3 12 ((1) # 1) 0 [(0, 3)]%nat; mkHe (0, 9)%nat 1 22 ((1) # 1) 0 [(0, 4)]%nat;
+         mkHe (0, 10)%nat 1 2 ((1) # 1) 0 [(0, 5)]%nat]
+        [mkVx (0, 0)%nat 2 [(0, 5); (0, 0); (0, 2); (0, 3)]%nat; mkVx (0, 1)%nat 2 [(0, 6); (0, 1); (0, 4)]%nat;
+         mkVx (0, 2)%nat 3 [(0, 7); (0, 5)]%nat; mkVx (0, 3)%nat 3 [(0, 8); (0, 6)]%nat;
+         mkVx (0, 4)%nat 1 [(0, 9); (0, 0); (0, 2); (0, 3); (0, 4)]%nat; mkVx (0, 5)%nat 1 [(0, 10); (0, 1)]%nat]).
